@@ -736,6 +736,8 @@ def api_case(cid, op, args, flags):
         c['iter'] = True
     if flags.get('build'):
         c['build'] = flags['build']
+    if flags.get('twice'):
+        c['twice'] = True
     return c
 
 
@@ -807,6 +809,17 @@ def run(tier, rep):
             for b in (('append', 'shrunk') if tier != 'quick' or op == 'setslice' else (('append', 'shrunk')[(hi // 8) % 2],)):
                 hist.append((T, op, args, dict(flags, build=b)))
         raw += hist
+        # immutable operands (and lists) with another history too: the leading slice of a longer parent, a value built from an iterator; the
+        # operation is run a second time with another right operand and the FIRST result is read again (results must not share storage)
+        hist2 = []
+        for hi, (T, op, args, flags) in enumerate(raw):
+            if T not in ('tuple', 'bytes', 'list', 'str', 'stru') or op not in ('add', 'mul', 'getslice', 'eq', 'contains') or flags.get('build'):
+                continue
+            if tier == 'quick' and op == 'getslice' and hi % 16:
+                continue
+            for b in ('sliced', 'grown'):
+                hist2.append((T, op, args, dict(flags, build=b, twice=op in ('add', 'mul'))))
+        raw += hist2
         cases, info = [], {}
         for (T, op, args, flags) in raw:
             tf = fam(T)
@@ -937,7 +950,7 @@ def run(tier, rep):
     rep.rule = ('exhaustive: sequence type in {list, tuple, str (ASCII), str (1-4 byte code points), bytes, range(n), range(5,5+3n,3), range(n-1,-1,-1)} x length 0..6 x '
                 '(start, stop, step) in lattice^3 (lattice = %d values: None, small ints around the lengths, +-(2^63-1), +-2^63, +-2^64) x {get slice; for lists also del slice and set slice with '
                 'RHS of length 0..3 and RHS = the list itself}; every index of the lattice as Int, forced BigInt, bool, float/str/None for get/set/del item; + (all length pairs, mixed types), '
-                '* and reflected * (negative, zero, bool, BigInt, non-int and - for empty operands - huge counts), len, in, ==, !=, <, <=, >, >=, iteration; range equality over %d^2 range pairs; list operands of the mutating operations, + , * and slicing also built by append() and by shortening a longer list (spare capacity); '
+                '* and reflected * (negative, zero, bool, BigInt, non-int and - for empty operands - huge counts), len, in, ==, !=, <, <=, >, >=, iteration; range equality over %d^2 range pairs; list operands of the mutating operations, + , * and slicing also built by append() and by shortening a longer list (spare capacity); tuple/bytes/str/list operands of +, *, slicing, ==, in also as the leading slice of a longer parent (which must stay intact) and built from an iterator, with + and * run a second time with another right operand and the first result read again; '
                 'seeded random tail with lengths 7..39; a stratified sample of the same operations compiled from source, one per program. '
                 'distinct non-trivial = distinct (type, operation, index/slice/other operands) tuples judged (api) plus distinct source programs judged' % (len(lattice(tier)), 24))
     rep.assumptions = ['CPython %s in-process and the first-principles model must agree before a case is judged' % '.'.join(map(str, __import__('sys').version_info[:3])),
@@ -1015,6 +1028,14 @@ def check_after(rep, base, witness, g, op, args, mutated):
     """Operands re-dumped after the op must equal what went in (operand 0 of a mutating op must equal `mutated`);
     a list result that is then mutated by the harness must leave every operand intact."""
     bad = False
+    if g.get('parent_after') is not None and g.get('parent_after') != g.get('parent_want'):
+        witness['parent_after'] = short(g.get('parent_after'))
+        rep.violation(base + 'parent-of-sliced-operand-changed', witness)
+        return True
+    if g.get('first_again') is not None and g.get('first_again') != g.get('first_before'):
+        witness['first_result'] = short([g.get('first_before'), g.get('first_again')])
+        rep.violation(base + 'earlier-result-changed-by-later-operation', witness)
+        return True
     after = g.get('after')
     if after is None:
         return False
